@@ -53,10 +53,11 @@ def generate(r, tier):
     hs = []
     mult = 1 if tier == "quick" else 20
     hid = 0
-    for _ in range(120 * mult):
+    for _ in range(400 * mult):
         hid += 1
         hs.append(spkigen.gen_small(r, hid, r.randrange(4, 40), reload=r.random() < 0.4, copyerr=r.random() < 0.25))
-    for top, nph in [(100, 6), (100, 10), (290, 6), (290, 10), (290, 14), (540, 4), (540, 8)] * mult:
+    sweeps = [(100, 6), (100, 10), (100, 14), (290, 6), (290, 10), (290, 14), (290, 18), (540, 4), (540, 8), (540, 12)]
+    for top, nph in sweeps * (2 * mult):
         hid += 1
         hs.append(spkigen.gen_sweep(r, hid, top, nph, reload=True))
     hid += 1
